@@ -1,5 +1,6 @@
 """C20 - library calls are stateless and never modify their arguments."""
 import copy
+import collections
 import hashlib
 import io
 import json
@@ -57,18 +58,24 @@ SLOTS = ["A1", "A2", "M1", "M2", "T1", "K1", "L1", "F1", "X1"]
 
 def make_workspace(rng):
     ws = {}
+    sparse = False
     for name in ("A1", "A2"):
         live = None
         for _ in range(10):
             live = cf.generated_live(rng, 2, t=rng.choice([1, 2, 2]))
             if live and sum(len(L) for L in live) >= 8:
                 break
+        if name == "A1" and rng.random() < 0.34:
+            live = cf.random_live(rng, 2, 0.35)         # an arbitrary arc subset: dead ends within reach of every search
+            sparse = True
         ws[name] = impl.accessor(live or [[0, 1, 2, 3]] * 16)
     ws["M1"] = numpy.array([rng.randrange(2) for _ in range(rng.choice([6, 9, 16]))], dtype=int)
     ws["M2"] = numpy.array([1] + [rng.randrange(2) for _ in range(rng.choice([0, 11, 69, 69]))], dtype=int)[rng.choice([0, 1]):]
     ws["T1"] = numpy.array(cf.random_table(rng, 16), dtype=int)
     ws["K1"] = numpy.array([rng.random() < 0.8 for _ in range(16)])
     ws["L1"] = dsw.accessor_to_latter_map(ws["A1"])
+    if sparse or rng.random() < 0.4:
+        ws["L1"] = collections.defaultdict(list, ws["L1"])      # a dict subclass users build latter maps with: a look-up must not insert
     ws["F1"] = dsw.LocalBioFilter(observed_length=2, max_homopolymer_runs=rng.choice([1, 2]), gc_range=rng.choice([[0.5, 0.5], [0, 1], None]),
                                   undesired_motifs=rng.choice([None, ["GC"], ["AT", "CG"]]))
     ws["X1"] = dsw.accessor_to_adjacency_matrix(impl.accessor(cf.random_live(rng, 2, 0.5)))
@@ -205,8 +212,8 @@ def run_event(ws, e):
         pr = impl.call(dsw.remove_nasty_arc, acc.copy(), copy.deepcopy(lm), has_insertion=("ins" in e["param"]), has_deletion=True)
         if pr["out"] == "ok":
             former = int(pr["value"][2][0])
-            impl.call(dsw.encode, ws["M1"].copy(), acc, former)
-            impl.call(lambda: dsw.decode(strand_for(ws["M1"], acc, None, former), len(ws["M1"]), acc, former))
+            impl.call(dsw.encode, ws["M1"].copy(), acc, former, _budget=6000, _alarm=20)          # (an arbitrary arc subset may make encode loop)
+            impl.call(lambda: dsw.decode(strand_for(ws["M1"], acc, None, former), len(ws["M1"]), acc, former), _budget=6000, _alarm=20)
             HOT[id(acc)] = former
     if e["fn"] in ("encode", "decode"):
         acc = args[1]
